@@ -215,10 +215,10 @@ def family_shards(tier):
         fixed = {f"{i}-{j}": 0 for i in range(4) for j in range(i + 1, 4)}
         fixed.update({"0-2": 1, "0-3": 1, "1-3": 1})
         out.append({"n": 4, "multi": [0] * 4, "hosts": hosts, "K": K, "fixed": fixed, "family": "fan-in with sibling"})
-    # a wide job on a large cluster: more tasks become computable in one round than any per-round limit one might think of
+    # a wide job (one producer, 65 consumers) on a large cluster: more tasks become computable in one round than any per-round limit one might think of
     for hosts in (["1x66"] if tier == "quick" else ["1x66", "6x11"]):
         n = 66
-        out.append({"n": n, "multi": [0] * n, "hosts": hosts, "K": 0, "fixed": {f"{i}-{j}": 0 for i in range(n) for j in range(i + 1, n)}, "family": "66 independent tasks", "ext_all": True})
+        out.append({"n": n, "multi": [0] * n, "hosts": hosts, "K": 0, "fixed": {f"{i}-{j}": (1 if i == 0 else 0) for i in range(n) for j in range(i + 1, n)}, "family": "star of 65", "ext_all": True})
     for (c, L) in fams:
         n = c * L
         fixed = {}
